@@ -289,7 +289,6 @@ NoDeviation == (pc = "done") => (fmt = abs.format /\ comp = abs.compression /\ m
 Export == pc = "done" => PrintT(<<"CASE", ToJson([ctor |-> arg.ctor, name |-> arg.name, fs |-> arg.fs, dom |-> abs.dom, steps |-> hist])>>)
 
 \* ---- constants of the configurations
-StemsQ == {"test", "http://h/api"}
 TokQ == {"test", "http://h/api", "osm", "osh", "osc", "pbf", "opl", "o5c", "gz", "bz2", "foo", ""}
 TokT == TokQ \cup {"xml", "json", "o5m", "debug", "blackhole", "ids", "-", "http", "https://h/x", "ftp://h/c", "http:x", "https"}
 TokM == TokQ \cup {"xml", "-", "http"}                   \* export, thorough
